@@ -983,23 +983,37 @@ func releaseCountsPages(c *core.Ctx, r *core.Rule) {
 			m++
 			k++
 			counted := false
-			for _, ref := range *call.Referrers() {
-				ex, ok := ref.(*ssa.Extract)
-				if !ok || ex.Index != 2 {
-					continue
+			seenV := map[ssa.Value]bool{}
+			var follow func(v ssa.Value, d int)
+			follow = func(v ssa.Value, d int) {
+				if d > 6 || seenV[v] || counted {
+					return
 				}
-				for _, r2 := range *ex.Referrers() {
-					bo, ok := r2.(*ssa.BinOp)
-					if !ok || bo.Op != token.ADD {
-						continue
-					}
-					for _, r3 := range *bo.Referrers() {
-						if st, ok := r3.(*ssa.Store); ok {
-							if fa, ok := st.Addr.(*ssa.FieldAddr); ok && core.FieldOfAddr(fa).Name() == "pages" {
-								counted = true
-							}
+				seenV[v] = true
+				refs := v.Referrers()
+				if refs == nil {
+					return
+				}
+				for _, r2 := range *refs {
+					switch x := r2.(type) {
+					case *ssa.BinOp:
+						if x.Op == token.ADD {
+							follow(x, d+1)
+						}
+					case *ssa.Phi:
+						follow(x, d+1)
+					case *ssa.Convert:
+						follow(x, d+1)
+					case *ssa.Store:
+						if fa, ok := x.Addr.(*ssa.FieldAddr); ok && core.FieldOfAddr(fa).Name() == "pages" {
+							counted = true
 						}
 					}
+				}
+			}
+			for _, ref := range *call.Referrers() {
+				if ex, ok := ref.(*ssa.Extract); ok && ex.Index == 2 {
+					follow(ex, 0)
 				}
 			}
 			key := fmt.Sprintf("%s/converted-pages-counted#%d", core.FnKey(fn), k)
